@@ -129,6 +129,13 @@ var kinds = []kind{
 	{name: "rplaca-sub", place: true, elem: true, share: shA, weight: 2},
 	{name: "rplaca", dest: true, share: shA, weight: 3},
 	{name: "rplacd", nargs: 2, dest: true, share: shAB, weight: 3},
+	// improper (dotted) lists: an atom becomes the cdr of a cons
+	{name: "rplacd-atom", dest: true, share: shA, weight: 4},           // (rplacd A atom): the head cons
+	{name: "rplacd-in", dest: true, share: shA, weight: 3},             // (rplacd (nthcdr k A) atom) / (cdr A) / (last A j): an inner cons
+	{name: "cons-atom", share: shFresh, weight: 1},                     // (cons x atom)
+	{name: "list*-atom", share: shFresh, weight: 1, noPair: true},      // (list* x y atom)
+	{name: "append-atom", share: shFresh, weight: 1, noPair: true},     // (append A atom)
+	{name: "nconc-atom", dest: true, ext: true, share: shA, weight: 2}, // (nconc A atom)
 	{name: "nconc", nargs: 2, dest: true, ext: true, share: shAB, weight: 5},
 	{name: "nconc3", nargs: 3, dest: true, ext: true, share: shAB, weight: 3},
 	{name: "nreconc", nargs: 2, dest: true, share: shAB, weight: 2},
@@ -164,6 +171,9 @@ func init() {
 		if k.name != "list" && k.name != "quote" && !k.noPair {
 			pairOps = append(pairOps, k.name)
 		}
+		if k.name != "list" && k.name != "quote" && k.name != "rows" && k.name != "xrow" && k.name != "ho" {
+			dottedOps = append(dottedOps, k.name)
+		}
 	}
 }
 
@@ -195,9 +205,101 @@ func tripleBlock(tier string) int {
 
 func nCases(tier string) int {
 	if tier == "thorough" {
-		return hoBlock() + pairBlock() + tripleBlock(tier) + thoroughRandom
+		return hoBlock() + dottedBlock() + pairBlock() + tripleBlock(tier) + thoroughRandom
 	}
-	return hoBlock() + pairBlock() + tripleBlock(tier) + quickRandom
+	return hoBlock() + dottedBlock() + pairBlock() + tripleBlock(tier) + quickRandom
+}
+
+// The improper-list block (every seed): a dotted list is made in one of
+// dottedMakers ways out of (or next to) la while lb holds a tail of la taken
+// BEFORE the cdr is replaced - by the language rules lb stops being a tail of
+// the dotted list and nothing done to the dotted list afterwards may reach
+// it. Then every operation is applied in four aliasing patterns (the dotted
+// list processed in place; as first argument with the result elsewhere; as
+// LAST argument; the former tail processed with the dotted list as second
+// argument), followed by one of three follow-ups (none; the result extended
+// by nconc; a car of the result replaced), over the five pools.
+var dottedOps []string
+
+const (
+	dottedMakers   = 10
+	dottedPatterns = 4
+	dottedFollow   = 3
+)
+
+func dottedBlock() int {
+	return dottedMakers * len(dottedOps) * dottedPatterns * dottedFollow * poolKinds
+}
+
+func dottedCase(i int) Case {
+	pool := i % poolKinds
+	i /= poolKinds
+	follow := i % dottedFollow
+	i /= dottedFollow
+	pat := i % dottedPatterns
+	i /= dottedPatterns
+	q := dottedOps[i%len(dottedOps)]
+	maker := i / len(dottedOps)
+	// la: five elements; lb: (nthcdr 3 la), the tail alias; lc: a list of three; ld: nil
+	pre := basePre(pool)
+	for k := range pre {
+		if pre[k].Op == "cdr" && pre[k].T == 1 {
+			pre[k] = Op{Op: "nthcdr", T: 1, A: 0, K: 3}
+		}
+	}
+	d := 3 // the variable that holds the dotted list
+	var ops []Op
+	switch maker {
+	case 0: // the head cons of la; la itself keeps the old slice
+		ops = []Op{{Op: "rplacd-atom", T: 3, A: 0}}
+	case 1: // the same, bound to la
+		ops = []Op{{Op: "rplacd-atom", T: 0, A: 0}}
+		d = 0
+	case 2: // an inner cons reached by cdr
+		ops = []Op{{Op: "rplacd-in", T: 3, A: 0, J: 1}}
+	case 3: // an inner cons reached by nthcdr: (rplacd (nthcdr 2 la) atom), directly in front of lb
+		ops = []Op{{Op: "rplacd-in", T: 3, A: 0, K: 1, J: 0}}
+	case 4: // an inner cons reached by last: (rplacd (last la 4) atom)
+		ops = []Op{{Op: "rplacd-in", T: 3, A: 0, K: 0, J: 2}}
+	case 5: // a longer dotted list: ld = (cdr la), then (rplacd (last ld 2) atom) drops its last element: (2 3 4 . atom)
+		ops = []Op{{Op: "cdr", T: 3, A: 0}, {Op: "rplacd-in", T: 2, A: 3, K: 1, J: 2}, {Op: "list", T: 2, K: 3}}
+	case 6: // a new cons
+		ops = []Op{{Op: "cons-atom", T: 3}}
+	case 7:
+		ops = []Op{{Op: "list*-atom", T: 3}}
+	case 8: // the last cdr of lc replaced by nconc
+		ops = []Op{{Op: "nconc-atom", T: 3, A: 2}, {Op: "list", T: 2, K: 3}}
+	default: // a dotted copy of la
+		ops = []Op{{Op: "append-atom", T: 3, A: 0}}
+	}
+	x, w := 2, 1 // an independent list; the former tail
+	tq := d
+	switch pat {
+	case 0:
+		ops = append(ops, mk(q, d, d, x, x, 1+pool))
+	case 1:
+		ops = append(ops, mk(q, x, d, x, w, 2+pool))
+		tq = x
+	case 2:
+		ops = append(ops, mk(q, x, x, d, d, 1+pool))
+		tq = x
+	default:
+		ops = append(ops, mk(q, d, w, d, x, 2+pool))
+	}
+	if kindOf[q].place {
+		tq = ops[len(ops)-1].T
+	}
+	other := x
+	if tq == x {
+		other = w
+	}
+	switch follow {
+	case 1:
+		ops = append(ops, mk("nconc", tq, tq, other, other, 1))
+	case 2:
+		ops = append(ops, mk("setf-car", tq, tq, 0, 0, 1))
+	}
+	return Case{Pre: pre, Ops: ops, Route: routes[(i+pat+follow)%3]}
 }
 
 // basePre builds the pool of the exhaustive blocks. la has five elements:
@@ -245,6 +347,10 @@ func gen(r *rand.Rand, i int, tier string) Case {
 		return hoCase(i)
 	}
 	i -= hoBlock()
+	if i < dottedBlock() {
+		return dottedCase(i)
+	}
+	i -= dottedBlock()
 	n := len(pairOps)
 	if i < pairBlock() {
 		combo := pairCombos[i%len(pairCombos)]
@@ -458,6 +564,11 @@ func randomCase(r *rand.Rand) Case {
 		}
 		c.Ops = append(c.Ops, op)
 	}
+	if r.IntN(5) == 0 {
+		// a share of the histories starts by making a dotted list out of a pool list
+		mk := []string{"rplacd-atom", "rplacd-atom", "rplacd-in", "rplacd-in", "nconc-atom", "cons-atom", "list*-atom", "append-atom"}[r.IntN(8)]
+		c.Ops[r.IntN((len(c.Ops)+1)/2)] = Op{Op: mk, T: r.IntN(nv), A: r.IntN(nv), K: r.IntN(8), J: r.IntN(8)}
+	}
 	if r.IntN(4) == 0 {
 		c.Mode = "compiled"
 	}
@@ -473,16 +584,39 @@ func randomCase(r *rand.Rand) Case {
 // function, so two occurrences with the same id are the same object by the
 // language rules, two different non-zero ids are different objects even when
 // their contents are equal, and 0 means the identity is not known.
+//
+// dot marks the terminating atom of an improper (dotted) list: a val is the
+// sequence of the cars of its cons cells, followed - when the cdr of the last
+// cons is not nil - by one dot element holding that atom (a fixnum). A val
+// that is only a dot element is the atom itself (no cons at all: what the
+// cdr of (1 . 2) is).
 type el struct {
 	v   int
 	sub []int
 	id  int
+	dot bool
 }
 
 type val []el
 
+// improper: the list ends in an atom instead of nil (or is a bare atom).
+func (v val) improper() bool { return 0 < len(v) && v[len(v)-1].dot }
+
+// conses: the number of cons cells of the top-level spine.
+func (v val) conses() int {
+	if v.improper() {
+		return len(v) - 1
+	}
+	return len(v)
+}
+
+// spine: the cars of the cons cells, without the terminating atom.
+func (v val) spine() val { return v[:v.conses()] }
+
+func dotted(n int) val { return val{{v: n, dot: true}} }
+
 func (e el) same(o el) bool {
-	if (e.sub == nil) != (o.sub == nil) {
+	if (e.sub == nil) != (o.sub == nil) || e.dot != o.dot {
 		return false
 	}
 	if e.sub == nil {
@@ -544,11 +678,17 @@ func render(v val) string {
 	if len(v) == 0 {
 		return "nil"
 	}
+	if v.conses() == 0 {
+		return v[0].text() // a bare atom
+	}
 	var b strings.Builder
 	b.WriteByte('(')
 	for i, e := range v {
 		if 0 < i {
 			b.WriteByte(' ')
+		}
+		if e.dot {
+			b.WriteString(". ")
 		}
 		b.WriteString(e.text())
 	}
@@ -611,7 +751,10 @@ func rev(a val) val {
 	return out
 }
 
+// isPrefix: the cons cells of old are still there, in order, with their
+// cars (an extension replaces the terminating nil or atom, nothing else).
 func isPrefix(old, nw val) bool {
+	old = old.spine()
 	if len(nw) < len(old) {
 		return false
 	}
@@ -629,9 +772,65 @@ type vstate struct {
 	shown string // harness rendering of the current value
 	el    val    // elements when the value is a proper list of fixnums and one-level sub-lists
 	ok    bool   // el is valid
-	class int    // cons-cell sharing class (0: never had a cons cell)
+	// cells: the cons cells of the value in the cons-cell reference model (ids
+	// handed out by the model). exact: cells is the top-level spine in order,
+	// one id per cons, as the language rules define it; otherwise cells is a
+	// set that over-approximates the cells the value may reach (after an
+	// operation whose effect on the cells is implementation-defined, or when
+	// slip did not show the effect the language defines, which is allowed for
+	// lists sharing cells with a destructively processed one).
+	cells []int
+	exact bool
 	via   string // operation that allocated the cells of the value (by the language rules)
 	birth int    // step of that allocation
+}
+
+// chain: the cells of a value (see vstate.cells).
+type chain struct {
+	cells []int
+	exact bool
+}
+
+func (s vstate) chain() chain {
+	return chain{cells: s.cells, exact: s.exact && s.ok && len(s.cells) == s.el.conses()}
+}
+
+func join(parts ...chain) chain {
+	out := chain{exact: true}
+	for _, p := range parts {
+		out.exact = out.exact && p.exact
+		out.cells = unionCells(out.cells, p.cells)
+	}
+	return out
+}
+
+func indexOf(cells []int, c int) int {
+	for i, x := range cells {
+		if x == c {
+			return i
+		}
+	}
+	return -1
+}
+
+func intersects(a, b []int) bool {
+	for _, x := range a {
+		if 0 <= indexOf(b, x) {
+			return true
+		}
+	}
+	return false
+}
+
+// unionCells: a followed by the cells of b that are not in a (a new slice).
+func unionCells(a, b []int) []int {
+	out := append(make([]int, 0, len(a)+len(b)), a...)
+	for _, x := range b {
+		if indexOf(out, x) < 0 {
+			out = append(out, x)
+		}
+	}
+	return out
 }
 
 type world struct {
@@ -639,7 +838,7 @@ type world struct {
 	scope *slip.Scope
 	mode  string
 	v     [nv]vstate
-	uf    []int // union-find parent over sharing classes; index 0 unused
+	cellN int // last cons cell id handed out by the reference model
 	step  int
 	next  int // next unused fixnum
 	ids   int // last sub-list object id handed out
@@ -650,6 +849,9 @@ type world struct {
 	ent  map[int]int
 	prog []string
 	dead bool // an evaluation failed; the state is no longer meaningful
+	// noRoute: an operation the language leaves undefined for an improper list
+	// signalled an error (accepted): the history cannot run as one form
+	noRoute bool
 	// hidden: operations whose result was seen to occupy the same backing
 	// array as a variable of another sharing class. Used only to NAME the
 	// culprit in a signature; the verdict itself is the observed change.
@@ -659,8 +861,13 @@ type world struct {
 }
 
 type hiddenAlias struct {
-	c1, c2 int
+	c1, c2 []int
 	op     string
+	// legit: the two lists shared cons cells until a cdr was replaced (rplacd);
+	// that they still live in one backing array is how slip stores lists, not
+	// a missing allocation: an operation that then writes from one into the
+	// other is itself to blame
+	legit bool
 }
 
 // span gives the address range of the backing array reachable from a list value.
@@ -702,47 +909,46 @@ func sigName(op string) string {
 		return "sort"
 	case "remove-dup":
 		return "remove-duplicates"
+	case "rplacd-atom", "rplacd-in":
+		return "rplacd"
+	case "cons-atom":
+		return "cons"
+	case "list*-atom":
+		return "list*"
+	case "append-atom":
+		return "append"
+	case "nconc-atom":
+		return "nconc"
 	case "delete-dup":
 		return "delete-duplicates"
 	}
 	return op
 }
 
-func (w *world) blame(cd, ci int) (string, bool) {
-	cd, ci = w.find(cd), w.find(ci)
+func (w *world) blame(cd, ci []int) (op string, legit, found bool) {
 	for _, h := range w.hidden {
-		a, b := w.find(h.c1), w.find(h.c2)
-		if (a == cd && b == ci) || (a == ci && b == cd) {
-			return h.op, true
+		if (intersects(h.c1, cd) && intersects(h.c2, ci)) || (intersects(h.c1, ci) && intersects(h.c2, cd)) {
+			if !h.legit {
+				return h.op, false, true
+			}
+			op, legit, found = h.op, true, true
 		}
 	}
-	return "", false
+	return op, legit, found
 }
 
-func (w *world) find(c int) int {
-	for c != 0 && w.uf[c] != c {
-		w.uf[c] = w.uf[w.uf[c]]
-		c = w.uf[c]
+// newCells hands out n unused cons cell ids.
+func (w *world) newCells(n int) chain {
+	out := chain{exact: true}
+	for ; 0 < n; n-- {
+		w.cellN++
+		out.cells = append(out.cells, w.cellN)
 	}
-	return c
+	return out
 }
 
-func (w *world) newClass() int {
-	w.uf = append(w.uf, len(w.uf))
-	return len(w.uf) - 1
-}
-
-func (w *world) union(a, b int) int {
-	a, b = w.find(a), w.find(b)
-	switch {
-	case a == 0:
-		return b
-	case b == 0 || a == b:
-		return a
-	}
-	w.uf[b] = a
-	return a
-}
+// sharing: the two variables may share a cons cell by the language rules.
+func (w *world) sharing(i, j int) bool { return intersects(w.v[i].cells, w.v[j].cells) }
 
 func (w *world) observe(i int) (shown string, v val, ok bool) {
 	var obj slip.Object
@@ -753,10 +959,21 @@ func (w *world) observe(i int) (shown string, v val, ok bool) {
 	switch to := obj.(type) {
 	case nil:
 		return shown, nil, true
+	case slip.Fixnum:
+		// a bare atom (the cdr of a dotted pair)
+		return shown, dotted(int(to)), true
 	case slip.List:
 		v = make(val, len(to))
 		for k, e := range to {
 			switch te := e.(type) {
+			case slip.Tail:
+				// slip's representation of a dotted list: the last slot holds the
+				// terminating atom; anywhere else it is not a list at all
+				f, isFix := te.Value.(slip.Fixnum)
+				if !isFix || k == 0 || k != len(to)-1 {
+					return shown, nil, false
+				}
+				v[k] = el{v: int(f), dot: true}
 			case slip.Fixnum:
 				v[k] = el{v: int(te)}
 			case nil:
@@ -830,11 +1047,219 @@ type planned struct {
 	after func()
 	// label: name of the operation in signatures and counters (ho: "mapcar fn=cons")
 	label string
+	// undef: a list argument the operation walks is improper (dotted) and the
+	// language does not define the operation for it ("should be prepared to
+	// signal an error"): an error is accepted, the result is not judged; the
+	// frame rule still applies
+	undef bool
+	// cellAt: rplacd family - index of the cons of A whose cdr is replaced
+	cellAt int
+	// atom: the atom literal that becomes a cdr (rplacd-atom, rplacd-in, nconc-atom, ...)
+	atom *int
+}
+
+// walked: the list arguments the operation walks along (as opposed to
+// arguments that only become the tail of the result: the second argument of
+// cons, the last one of list*, append, revappend, nconc, nreconc, the new cdr
+// of rplacd - any object is allowed there, an atom too).
+func walked(op Op) []int {
+	switch op.Op {
+	case "list", "quote", "rows", "xrow", "alias", "cons", "list*", "list*1", "append1",
+		"cons-atom", "list*-atom",
+		"setf-caar", "setf-sub-nth", "rplaca-sub", // (nth k list) with k inside the conses
+		"nconc", "nconc3": // dotted lists are allowed; planned there
+		return nil
+	case "append3", "mapcar2", "ho":
+		return []int{op.A, op.B}
+	}
+	return []int{op.A}
 }
 
 // plan resolves an operation against the observed contents and gives the
 // program text and the reference result for the target variable.
 func (w *world) plan(op Op, kd *kind) (p planned) {
+	if !w.v[op.A].ok || (2 <= kd.nargs && !w.v[op.B].ok) || (3 <= kd.nargs && !w.v[op.C].ok) {
+		return planned{skip: "argument is not a list of fixnums and sub-lists"}
+	}
+	imp := false
+	for _, i := range walked(op) {
+		imp = imp || w.v[i].el.improper()
+	}
+	if op.Op == "push" && 0 < len(w.v[op.A].el) && w.v[op.A].el.conses() == 0 {
+		imp = true // the place holds a bare atom: slip documents push for a place that references a list
+	}
+	if !imp {
+		return w.planProper(op, kd)
+	}
+	if op.Op == "ho" {
+		return planned{skip: "ho: improper list argument"}
+	}
+	if p, defined := w.planImproper(op); defined {
+		return p
+	}
+	// not defined by the language for an improper list: the program text of
+	// the proper-list plan is run, the result is not judged
+	p = w.planProper(op, kd)
+	if p.skip == "" {
+		p.undef, p.all, p.after = true, nil, nil
+		w.x.Cover("improper:undefined-by-the-language op=" + sigName(op.Op))
+	}
+	return p
+}
+
+// planImproper: the operations the language defines for a dotted list (the
+// argument that is walked is improper). defined = false: not defined.
+func (w *world) planImproper(op Op) (p planned, defined bool) {
+	T, A, B := names[op.T], names[op.A], names[op.B]
+	a, b := w.v[op.A].el, w.v[op.B].el
+	m := a.conses()
+	if m == 0 {
+		return p, false // a bare atom is not a list
+	}
+	fresh := func() int { w.next++; return w.next }
+	newEl := func() el {
+		if op.J%5 == 4 {
+			w.ids++
+			return el{sub: []int{fresh(), fresh()}, id: w.ids}
+		}
+		return el{v: fresh()}
+	}
+	setq := func(form string, want val) (planned, bool) {
+		w.x.Cover("improper:defined op=" + sigName(op.Op))
+		return planned{src: "(setq " + T + " " + form + ")", want: want}, true
+	}
+	place := func(src string, want val) (planned, bool) {
+		w.x.Cover("improper:defined op=" + sigName(op.Op))
+		return planned{src: src, want: want, dargs: []int{op.A}}, true
+	}
+	switch op.Op {
+	case "cdr", "rest":
+		return setq("("+op.Op+" "+A+")", a[1:])
+	case "nthcdr":
+		k := op.K % (m + 1)
+		return setq(fmt.Sprintf("(nthcdr %d %s)", k, A), a[k:])
+	case "last":
+		k := op.K % (m + 2)
+		if m < k {
+			return setq(fmt.Sprintf("(last %s %d)", A, k), a)
+		}
+		return setq(fmt.Sprintf("(last %s %d)", A, k), a[m-k:])
+	case "last1":
+		return setq("(last "+A+")", a[m-1:])
+	case "butlast", "nbutlast":
+		k := op.K % (m + 2)
+		var want val
+		if k < m {
+			want = a[:m-k]
+		}
+		p, _ = setq(fmt.Sprintf("(%s %s %d)", op.Op, A, k), want)
+		return p, true
+	case "butlast1":
+		return setq("(butlast "+A+")", a[:m-1])
+	case "copy-list":
+		return setq("(copy-list "+A+")", a)
+	case "pop":
+		p, _ = place("(pop "+T+")", a[1:])
+		p.dargs = nil
+		return p, true
+	case "setf-car", "setf-first":
+		e := newEl()
+		return place(fmt.Sprintf("(setf (%s %s) %s)", strings.TrimPrefix(op.Op, "setf-"), T, e.form()), cat(val{e}, a[1:]))
+	case "setf-nth":
+		k := op.K % m
+		e := newEl()
+		want := cat(a)
+		want[k] = e
+		return place(fmt.Sprintf("(setf (nth %d %s) %s)", k, T, e.form()), want)
+	case "rplaca":
+		e := newEl()
+		p, _ = setq(fmt.Sprintf("(rplaca %s %s)", A, e.form()), cat(val{e}, a[1:]))
+		p.dargs = []int{op.A}
+		return p, true
+	case "rplacd":
+		if w.sharing(op.A, op.B) {
+			return planned{skip: "would be circular"}, true
+		}
+		p, _ = setq(fmt.Sprintf("(rplacd %s %s)", A, B), cat(a[:1], b))
+		p.dargs = []int{op.A}
+		p.from = []int{op.A, op.B}
+		return p, true
+	case "rplacd-atom", "rplacd-in", "nconc-atom":
+		return w.planAtom(op), true
+	}
+	return p, false
+}
+
+// planAtom: the operations that make an atom the cdr of a cons of A. They
+// are defined for proper and for dotted lists alike.
+func (w *world) planAtom(op Op) (p planned) {
+	T, A := names[op.T], names[op.A]
+	a := w.v[op.A].el
+	m := a.conses()
+	w.next++
+	n := w.next
+	p.atom = &n
+	switch op.Op {
+	case "cons-atom":
+		w.next++
+		p.src = fmt.Sprintf("(setq %s (cons %d %d))", T, w.next, n)
+		p.want = val{{v: w.next}, {v: n, dot: true}}
+	case "list*-atom":
+		w.next += 2
+		p.src = fmt.Sprintf("(setq %s (list* %d %d %d))", T, w.next-1, w.next, n)
+		p.want = val{{v: w.next - 1}, {v: w.next}, {v: n, dot: true}}
+	case "append-atom":
+		p.src = fmt.Sprintf("(setq %s (append %s %d))", T, A, n)
+		p.want = cat(a, dotted(n))
+	case "nconc-atom":
+		if 0 < len(a) && m == 0 {
+			return planned{skip: "a bare atom is not a list"}
+		}
+		p.src = fmt.Sprintf("(setq %s (nconc %s %d))", T, A, n)
+		p.want = cat(a.spine(), dotted(n))
+		if 0 < m {
+			p.dargs = []int{op.A}
+		}
+		p.from = []int{op.A}
+	case "rplacd-atom":
+		if m == 0 {
+			return planned{skip: "empty list"}
+		}
+		p.src = fmt.Sprintf("(setq %s (rplacd %s %d))", T, A, n)
+		p.want = cat(a[:1], dotted(n))
+		p.dargs = []int{op.A}
+	case "rplacd-in":
+		// an inner cons, reached the way programs reach it
+		if m < 2 {
+			return planned{skip: "no inner cons"}
+		}
+		k := 1 + op.K%(m-1)
+		var at string
+		switch op.J % 3 {
+		case 0:
+			at = fmt.Sprintf("(nthcdr %d %s)", k, A)
+		case 1:
+			k = 1
+			at = "(cdr " + A + ")"
+		default:
+			at = fmt.Sprintf("(last %s %d)", A, m-k)
+		}
+		p.src = fmt.Sprintf("(setq %s (rplacd %s %d))", T, at, n)
+		p.want = cat(a[k:k+1], dotted(n))
+		p.dargs = []int{op.A}
+		p.cellAt = k
+	default:
+		panic("unknown operation " + op.Op)
+	}
+	if a.improper() {
+		w.x.Cover("improper:defined op=" + sigName(op.Op))
+	}
+	return p
+}
+
+// planProper: the plan for proper lists (arguments that only become the tail
+// of the result may be improper).
+func (w *world) planProper(op Op, kd *kind) (p planned) {
 	T := names[op.T]
 	A := names[op.A]
 	B := names[op.B]
@@ -859,7 +1284,6 @@ func (w *world) plan(op Op, kd *kind) (p planned) {
 	if !w.v[op.A].ok || (2 <= kd.nargs && !w.v[op.B].ok) || (3 <= kd.nargs && !w.v[op.C].ok) {
 		return skip("argument is not a list of fixnums and sub-lists")
 	}
-	classOf := func(i int) int { return w.find(w.v[i].class) }
 	item := func() int {
 		if k := op.K % (n + 1); k < n && a[k].sub == nil {
 			return a[k].v
@@ -1180,7 +1604,7 @@ func (w *world) plan(op Op, kd *kind) (p planned) {
 		if n == 0 {
 			return skip("empty list")
 		}
-		if classOf(op.A) != 0 && classOf(op.A) == classOf(op.B) {
+		if w.sharing(op.A, op.B) {
 			return skip("would be circular")
 		}
 		p = setq(fmt.Sprintf("(rplacd %s %s)", A, B), cat(a[:1], b))
@@ -1200,18 +1624,37 @@ func (w *world) plan(op Op, kd *kind) (p planned) {
 		}
 		for i := range ne {
 			for j := i + 1; j < len(ne); j++ {
-				if ne[i] == ne[j] || (classOf(ne[i]) != 0 && classOf(ne[i]) == classOf(ne[j])) {
+				if ne[i] == ne[j] || w.sharing(ne[i], ne[j]) {
 					return skip("would be circular")
 				}
 			}
 		}
+		// nconc: every argument but the last may be a dotted list (its terminating
+		// atom is replaced), the last one any object
+		linked := val{}
+		for j, i := range ne {
+			switch v := w.v[i].el; {
+			case j == len(ne)-1:
+				linked = cat(linked, v)
+			case v.conses() == 0:
+				p.undef = true // a bare atom before the last argument is not a list
+			default:
+				if v.improper() {
+					w.x.Cover("improper:defined op=nconc")
+				}
+				linked = cat(linked, v.spine())
+			}
+		}
 		switch op.Op {
 		case "nconc":
-			p = setq(fmt.Sprintf("(nconc %s %s)", A, B), cat(a, b))
+			p = planned{src: fmt.Sprintf("(setq %s (nconc %s %s))", T, A, B), want: linked, undef: p.undef}
 		case "nconc3":
-			p = setq(fmt.Sprintf("(nconc %s %s %s)", A, B, C), cat(a, b, c))
+			p = planned{src: fmt.Sprintf("(setq %s (nconc %s %s %s))", T, A, B, C), want: linked, undef: p.undef}
 		default:
 			p = setq(fmt.Sprintf("(nreconc %s %s)", A, B), cat(rev(a), b))
+		}
+		if p.undef {
+			w.x.Cover("improper:undefined-by-the-language op=nconc")
 		}
 		p.from = ne
 		if 1 < len(ne) {
@@ -1221,6 +1664,8 @@ func (w *world) plan(op Op, kd *kind) (p planned) {
 			p.from = []int{op.A}
 		}
 		return p
+	case "rplacd-atom", "rplacd-in", "nconc-atom", "cons-atom", "list*-atom", "append-atom":
+		return w.planAtom(op)
 	case "add":
 		e := newEl()
 		p = setq(fmt.Sprintf("(add %s %s)", A, e.form()), cat(a, val{e}))
@@ -1312,6 +1757,22 @@ func (w *world) stepOp(op Op, phase string) {
 	}
 	w.prog = append(w.prog, src)
 	before := w.v
+	// dot: a destructively processed argument (or, for a non-destructive
+	// operation, a walked one) is a dotted list - slip handles those on
+	// separate paths, so they get their own signatures
+	dot := ""
+	for _, i := range p.dargs {
+		if before[i].el.improper() {
+			dot = " arg=dotted"
+		}
+	}
+	if len(p.dargs) == 0 {
+		for _, i := range walked(op) {
+			if before[i].el.improper() {
+				dot = " arg=dotted"
+			}
+		}
+	}
 	var err *sl.Err
 	if w.mode == "compiled" {
 		_, err = sl.EvalCompiled(w.scope, src)
@@ -1323,14 +1784,22 @@ func (w *world) stepOp(op Op, phase string) {
 	} else {
 		x.Cover(phase + ":" + op.Op)
 	}
+	errored := false
 	if err != nil {
 		k := "error"
 		if err.Internal {
 			k = "internal-fault"
 		}
-		x.Fail(k+" op="+label, "%s => %s (reference result %s)\nhistory: %s", src, err, render(want), strings.Join(w.prog, " "))
-		w.dead = true
-		return
+		if !p.undef || err.Internal {
+			x.Fail(k+" op="+label+dot, "%s => %s (reference result %s)\nhistory: %s", src, err, render(want), strings.Join(w.prog, " "))
+			w.dead = true
+			return
+		}
+		// the language lets an implementation signal an error here
+		x.Cover("improper:error-accepted op=" + label)
+		errored, w.noRoute = true, true
+	} else if p.undef {
+		x.Cover("improper:undefined-result-not-judged op=" + label)
 	}
 	// re-read every variable
 	for i := 0; i < nv; i++ {
@@ -1340,17 +1809,21 @@ func (w *world) stepOp(op Op, phase string) {
 	var snap [nv]string
 	for i := 0; i < nv; i++ {
 		snap[i] = w.v[i].shown
+		if w.v[i].ok && w.v[i].el.improper() {
+			x.Cover("observed-improper-values")
+		}
 	}
 	w.trace = append(w.trace, snap)
 	w.opAt = append(w.opAt, label)
-	// the destructively processed classes (empty: nothing may change)
-	dclass := map[int]bool{}
-	if 0 < len(p.dargs) {
-		for _, i := range p.dargs {
-			if c := w.find(before[i].class); c != 0 {
-				dclass[c] = true
-			}
-		}
+	// the cons cells of the destructively processed lists (empty: nothing may change)
+	var dcells []int
+	for _, i := range p.dargs {
+		dcells = unionCells(dcells, before[i].cells)
+	}
+	// target: the variable the operation binds; after an accepted error none
+	target := op.T
+	if errored {
+		target = -1
 	}
 	// carry the object ids of the reference model over to the observed values
 	for i := 0; i < nv; i++ {
@@ -1358,12 +1831,12 @@ func (w *world) stepOp(op Op, phase string) {
 		switch {
 		case p.all != nil:
 			exp = p.all[i]
-		case i == op.T:
+		case i == target && !p.undef:
 			exp = want
 		}
 		// a list sharing cells with a destructively processed one may hold other
 		// objects than before even when it prints the same
-		exempt := i != op.T && dclass[w.find(before[i].class)]
+		exempt := (i != target && intersects(before[i].cells, dcells)) || (i == target && p.undef)
 		if w.v[i].ok && !exempt && w.v[i].shown == render(exp) {
 			w.v[i].el = cat(exp)
 		} else if w.v[i].ok {
@@ -1406,35 +1879,48 @@ func (w *world) stepOp(op Op, phase string) {
 	}
 
 	// (1) value oracle on the target
-	if got := w.v[op.T].shown; got != render(want) {
-		detail := ""
+	agreed := false
+	switch got := w.v[op.T].shown; {
+	case errored || p.undef:
+	case got != render(want):
+		detail := dot
 		switch {
 		case op.Op == "rplacd" && len(before[op.B].el) == 0:
-			detail = " cdr=nil"
+			detail += " cdr=nil"
+		case op.Op == "rplacd" && before[op.B].el.conses() == 0, op.Op == "rplacd-atom", op.Op == "rplacd-in":
+			detail += " cdr=atom"
 		case op.Op == "list*" && len(before[op.A].el) == 0:
-			detail = " tail=nil"
+			detail += " tail=nil"
+		case op.Op == "list*" && before[op.A].el.conses() == 0, op.Op == "list*-atom":
+			detail += " tail=atom"
 		case op.Op == "list*":
-			detail = " tail=list"
+			detail += " tail=list"
 		case (op.Op == "revappend" || op.Op == "nreconc") && len(before[op.B].el) == 0:
-			detail = " tail=nil"
+			detail += " tail=nil"
+		case op.Op == "cons-atom", op.Op == "append-atom", op.Op == "nconc-atom":
+			detail += " tail=atom"
 		}
 		x.Fail("value op="+label+detail, "%s bound %s to %s, the reference result from the observed arguments is %s\nhistory: %s",
 			src, names[op.T], got, render(want), hist())
-	} else {
+	default:
+		agreed = true
 		x.Cover("value-agreed")
+		if want.improper() {
+			x.Cover("value-agreed-improper-result")
+		}
 	}
 	// (2) frame rule on every other variable
 	for i := 0; i < nv; i++ {
-		if i == op.T {
+		if i == target {
 			continue
 		}
 		changed := before[i].shown != w.v[i].shown
-		shares := dclass[w.find(before[i].class)]
+		shares := intersects(before[i].cells, dcells)
 		switch {
-		case len(dclass) == 0:
+		case len(dcells) == 0:
 			x.Cover("frame:non-destructive-checked")
 			if changed {
-				x.Fail("frame op="+label, "%s is not destructive (or had nothing to destroy) but changed %s from %s to %s\nhistory: %s",
+				x.Fail("frame op="+label+dot, "%s is not destructive (or had nothing to destroy) but changed %s from %s to %s\nhistory: %s",
 					src, names[i], before[i].shown, w.v[i].shown, hist())
 			}
 		case !shares:
@@ -1446,12 +1932,20 @@ func (w *world) stepOp(op Op, phase string) {
 			if changed {
 				// blame the allocation that should have made the two lists independent
 				d := p.dargs[0]
-				via, found := "", false
+				via, legit, found := "", false, false
 				for _, di := range p.dargs {
-					if via, found = w.blame(before[di].class, before[i].class); found {
+					if via, legit, found = w.blame(before[di].cells, before[i].cells); found {
 						d = di
 						break
 					}
+				}
+				if found && legit {
+					// the two lists were one until a cdr was replaced; they still live in
+					// one backing array, which is slip's way of storing them: this operation
+					// wrote from the one into the other
+					x.Fail("overwrite op="+label+dot, "%s changed %s from %s to %s although %s is no tail of %s any more since %s replaced a cdr (by the language rules they share no cons cell now)\nhistory: %s",
+						src, names[i], before[i].shown, w.v[i].shown, names[i], names[d], via, hist())
+					continue
 				}
 				if !found {
 					via = before[d].via
@@ -1463,10 +1957,10 @@ func (w *world) stepOp(op Op, phase string) {
 					src, names[i], before[i].shown, w.v[i].shown, names[i], names[d],
 					names[d], before[d].via, names[i], before[i].via, hist())
 			}
-		case kd.ext:
+		case kd.ext && !p.undef:
 			x.Cover("frame:extension-sharing-checked")
 			if changed && !(before[i].ok && w.v[i].ok && isPrefix(before[i].el, w.v[i].el)) {
-				x.Fail("overwrite op="+label, "%s extends a list but overwrote elements reachable from %s: %s became %s\nhistory: %s",
+				x.Fail("overwrite op="+label+dot, "%s extends a list but overwrote elements reachable from %s: %s became %s\nhistory: %s",
 					src, names[i], before[i].shown, w.v[i].shown, hist())
 			}
 		default:
@@ -1477,57 +1971,239 @@ func (w *world) stepOp(op Op, phase string) {
 		}
 	}
 
-	// (3) step the sharing model
-	res := &w.v[op.T]
-	inherit := func(s vstate) {
-		res.class, res.via, res.birth = s.class, s.via, s.birth
-		if w.find(res.class) == 0 {
-			res.class = 0
-			if 0 < len(want) {
-				res.class, res.via, res.birth = w.newClass(), label, w.step
-			}
-		}
-	}
-	switch {
-	case p.from != nil:
-		// the classes of these arguments merge; the youngest allocation names the class
-		m := vstate{}
-		for k, i := range p.from {
-			s := before[i]
-			if k == 0 || m.birth < s.birth {
-				m.via, m.birth = s.via, s.birth
-			}
-			m.class = w.union(m.class, s.class)
-		}
-		inherit(m)
-	case kd.share == shFresh:
-		res.class, res.via, res.birth = 0, label, w.step
-		if 0 < len(want) {
-			res.class = w.newClass()
-		}
-	case kd.share == shA || kd.share == shAB:
-		inherit(before[op.A])
-	case kd.share == shB:
-		inherit(before[op.B])
-	case kd.share == shC:
-		inherit(before[op.C])
-	}
+	// (3) step the cons-cell model
+	w.stepCells(op, kd, &p, &before, label, errored, agreed)
 	if kd.dest {
 		x.Cover("destructive-ops")
+	}
+	if errored {
+		return
 	}
 	// name-only bookkeeping: does the new value of the target occupy the
 	// backing array of a variable it shares no cons cell with?
 	if lo, hi, ok := w.span(op.T); ok {
-		ct := w.find(res.class)
+		// the arguments whose cells the result may consist of by the language rules
+		var srcs []int
+		switch kd.share {
+		case shA:
+			srcs = []int{op.A}
+		case shB:
+			srcs = []int{op.B}
+		case shC:
+			srcs = []int{op.C}
+		case shAB:
+			srcs = []int{op.A, op.B}
+			if op.Op == "nconc3" {
+				srcs = append(srcs, op.C)
+			}
+		}
 		for i := 0; i < nv; i++ {
-			if i == op.T || w.find(w.v[i].class) == ct {
+			if i == op.T || w.sharing(i, op.T) {
 				continue
 			}
 			if l2, h2, ok2 := w.span(i); ok2 && lo < h2 && l2 < hi {
-				w.hidden = append(w.hidden, hiddenAlias{c1: res.class, c2: w.v[i].class, op: label})
-				x.Cover("hidden-backing-array-sharing-seen")
+				legit := false
+				for _, j := range srcs {
+					legit = legit || intersects(before[i].cells, before[j].cells)
+				}
+				w.hidden = append(w.hidden, hiddenAlias{c1: w.v[op.T].cells, c2: w.v[i].cells, op: label, legit: legit})
+				if legit {
+					x.Cover("former-tail-in-one-backing-array-seen")
+				} else {
+					x.Cover("hidden-backing-array-sharing-seen")
+				}
 			}
 		}
+	}
+}
+
+// stepCells steps the cons-cell reference model over one operation: which
+// cells the result consists of and what the operation does, by the language
+// rules, to the cells of the other variables.
+func (w *world) stepCells(op Op, kd *kind, p *planned, before *[nv]vstate, label string, errored, agreed bool) {
+	want := p.want
+	ncons := want.conses()
+	A, B, C := before[op.A], before[op.B], before[op.C]
+	// entangle: the effect on the cells is not defined in detail (or not
+	// known): every variable that reaches one of the cells may reach all of u
+	entangle := func(hit, u []int) {
+		for i := 0; i < nv; i++ {
+			if intersects(before[i].cells, hit) {
+				w.v[i].cells, w.v[i].exact = unionCells(before[i].cells, u), false
+			}
+		}
+	}
+	// relink: by the language rules variable i now has the chain nc and the
+	// value pred. When slip shows exactly that the model stays exact, otherwise
+	// (allowed for a list sharing cells with a processed one) the variable may
+	// still reach its old cells as well.
+	relink := func(i int, nc chain, pred val) {
+		if nc.exact && w.v[i].ok && w.v[i].shown == render(pred) {
+			w.v[i].cells, w.v[i].exact = nc.cells, true
+			return
+		}
+		w.v[i].cells, w.v[i].exact = unionCells(before[i].cells, nc.cells), false
+	}
+	var rc chain
+	switch {
+	case p.undef:
+		u := A.cells
+		if 2 <= kd.nargs {
+			u = unionCells(u, B.cells)
+		}
+		if 3 <= kd.nargs {
+			u = unionCells(u, C.cells)
+		}
+		if kd.dest {
+			entangle(u, u)
+		}
+		rc = chain{cells: unionCells(u, w.newCells(1).cells)}
+	case op.Op == "ho" && p.from != nil: // map-into: the cars of the target's cells are replaced
+		rc = chain{cells: before[op.T].cells, exact: before[op.T].exact}
+	case kd.share == shFresh:
+		rc = w.newCells(ncons)
+	default:
+		switch op.Op {
+		case "alias", "append1", "rplaca", "setf-car", "setf-first", "setf-nth", "setf-elt":
+			rc = chain{cells: A.cells, exact: A.exact}
+		case "cons", "push", "pushnew", "list*", "list*1":
+			rc = join(w.newCells(ncons-A.el.conses()), A.chain())
+		case "cdr", "rest", "nthcdr", "last", "last1", "member", "pop":
+			if ca := A.chain(); ca.exact && ncons <= len(ca.cells) {
+				rc = chain{cells: ca.cells[len(ca.cells)-ncons:], exact: true}
+			} else if 0 < ncons {
+				rc = chain{cells: A.cells}
+			}
+		case "append", "revappend":
+			rc = join(w.newCells(ncons-B.el.conses()), B.chain())
+		case "append3":
+			rc = join(w.newCells(ncons-C.el.conses()), C.chain())
+		case "rplacd", "rplacd-atom", "rplacd-in":
+			// the cdr of one cons of A is replaced: what was behind it is cut off
+			var tail chain
+			tailVal := want[1:]
+			tail.exact = true
+			if op.Op == "rplacd" {
+				tail = B.chain()
+				if len(B.cells) == 0 {
+					tail.exact = true
+				}
+			}
+			if ca := A.chain(); ca.exact && p.cellAt < len(ca.cells) {
+				head := ca.cells[p.cellAt]
+				rc = join(chain{cells: []int{head}, exact: true}, tail)
+				for i := 0; i < nv; i++ {
+					s := before[i]
+					at := indexOf(s.cells, head)
+					switch {
+					case at < 0:
+					case s.chain().exact:
+						relink(i, join(chain{cells: s.cells[:at+1], exact: true}, tail), cat(s.el[:at+1], tailVal))
+					default:
+						w.v[i].cells, w.v[i].exact = unionCells(s.cells, tail.cells), false
+					}
+				}
+			} else {
+				// which cell is the head is not known
+				rc = chain{cells: unionCells(A.cells, tail.cells)}
+				entangle(A.cells, rc.cells)
+			}
+		case "nconc", "nconc3", "nconc-atom":
+			// the last cdr of every non-empty argument but the last is set to the next one
+			var links []chain
+			var vals []val
+			for _, i := range p.from {
+				if 0 < len(before[i].el) {
+					links = append(links, before[i].chain())
+					vals = append(vals, before[i].el)
+				}
+			}
+			if op.Op == "nconc-atom" {
+				links = append(links, chain{exact: true})
+				vals = append(vals, dotted(*p.atom))
+			}
+			rc = join(links...)
+			for j := len(links) - 2; 0 <= j; j-- {
+				rest := join(links[j+1:]...)
+				restVal := val{}
+				for k := j + 1; k < len(vals); k++ {
+					if k == len(vals)-1 {
+						restVal = cat(restVal, vals[k])
+					} else {
+						restVal = cat(restVal, vals[k].spine())
+					}
+				}
+				for i := 0; i < nv; i++ {
+					if s := before[i]; intersects(s.cells, links[j].cells) {
+						if s.chain().exact {
+							relink(i, join(s.chain(), rest), cat(s.el.spine(), restVal))
+						} else {
+							w.v[i].cells, w.v[i].exact = unionCells(unionCells(s.cells, w.v[i].cells), rest.cells), false
+						}
+					}
+				}
+			}
+		case "nreconc":
+			if A.el.conses() == 0 {
+				rc = B.chain()
+			} else {
+				rc = chain{cells: unionCells(A.cells, B.cells)}
+				entangle(A.cells, rc.cells)
+			}
+		case "add", "add2", "addf":
+			added := want[len(A.el):]
+			nw := w.newCells(len(added))
+			rc = join(A.chain(), nw)
+			for i := 0; i < nv; i++ {
+				if s := before[i]; intersects(s.cells, A.cells) {
+					if s.chain().exact {
+						relink(i, join(s.chain(), nw), cat(s.el, added))
+					} else {
+						w.v[i].cells, w.v[i].exact = unionCells(s.cells, nw.cells), false
+					}
+				}
+			}
+		default:
+			// nreverse, nbutlast, sort, delete ...: the cells are reused in a way
+			// the language leaves to the implementation
+			entangle(A.cells, A.cells)
+			if 0 < ncons {
+				rc = chain{cells: A.cells}
+			}
+		}
+	}
+	if errored {
+		return
+	}
+	res := &w.v[op.T]
+	res.cells, res.exact = rc.cells, rc.exact && agreed
+	if res.ok && res.el.conses() == 0 {
+		res.cells, res.exact = nil, false // nil or an atom: no cons cell
+	}
+	// the allocation that names the cells of the result
+	var src vstate
+	switch {
+	case p.from != nil:
+		// the youngest allocation of the linked lists
+		for k, i := range p.from {
+			if s := before[i]; k == 0 || src.birth < s.birth {
+				src.via, src.birth = s.via, s.birth
+			}
+			src.cells = unionCells(src.cells, before[i].cells)
+		}
+	case kd.share == shFresh:
+		res.via, res.birth = label, w.step
+		return
+	case kd.share == shB:
+		src = B
+	case kd.share == shC:
+		src = C
+	default:
+		src = A
+	}
+	res.via, res.birth = src.via, src.birth
+	if len(src.cells) == 0 && 0 < len(rc.cells) {
+		res.via, res.birth = label, w.step
 	}
 }
 
@@ -1601,7 +2277,7 @@ func (w *world) reroute(route string) {
 }
 
 func exec(x *fw.Ctx, c Case) {
-	w := &world{x: x, scope: slip.NewScope(), mode: c.Mode, uf: []int{0}, next: 100, ent: map[int]int{}}
+	w := &world{x: x, scope: slip.NewScope(), mode: c.Mode, next: 100, ent: map[int]int{}}
 	for i := 0; i < nv; i++ {
 		w.scope.Let(slip.Symbol(names[i]), nil)
 		w.v[i] = vstate{shown: "nil", ok: true, via: "nil"}
@@ -1629,26 +2305,31 @@ func exec(x *fw.Ctx, c Case) {
 	}
 	final := map[string]string{}
 	live := 0
-	classes := map[int]bool{}
-	nested := false
+	sharing, nested, improper := false, false, false
 	for i := 0; i < nv; i++ {
 		final[names[i]] = w.v[i].shown
 		if 0 < len(w.v[i].el) {
 			live++
-			classes[w.find(w.v[i].class)] = true
 			nested = nested || !w.v[i].el.allInts()
+			improper = improper || w.v[i].el.improper()
+			for j := 0; j < i; j++ {
+				sharing = sharing || w.sharing(i, j)
+			}
 		}
 	}
 	x.Observe(map[string]any{"program": w.prog, "final": final})
-	if c.Route != "" && !w.dead && 0 < len(w.prog) {
+	if c.Route != "" && !w.dead && !w.noRoute && 0 < len(w.prog) {
 		w.reroute(c.Route)
 	}
 	if executed == 0 || live < 2 {
 		x.Trivial()
 		return
 	}
-	if len(classes) < live {
+	if sharing {
 		x.Cover("histories-with-sharing-variables")
+	}
+	if improper {
+		x.Cover("histories-ending-with-an-improper-list")
 	}
 	if nested {
 		x.Cover("histories-with-sub-list-elements")
